@@ -564,6 +564,7 @@ Section Cur.
   Variable filtered : bool.
   Variable flt : oev -> bool.
   Variable choose : nat -> list (option oev) -> nat.
+  Variable strict : bool.
 
   Definition fcoh (j : journal) (l : lei) (n : nat) : Prop :=
     clear = true \/ l_flds l = [] \/ exists e, nth_error (recs j) n = Some e /\ l_flds l = e_flds e.
@@ -1148,19 +1149,19 @@ Section Cur.
 
   Lemma query_spec st pv D ns id pos lim wait pv' rs : wf_store st -> acc D st ns -> start_ok st pos ns ->
     ((0 <? id)%N = true -> cache_ok st pv id pos ns) ->
-    query clear filtered flt choose st pv (mkReq id pos lim wait) = (pv', rs) ->
+    query clear filtered flt choose strict st pv (mkReq id pos lim wait) = (pv', rs) ->
     exists ns', acc (D ++ rs_events rs) st ns' /\ start_ok st (rs_pos rs) ns' /\ rs_ok rs = true /\
                 ((0 <? rs_id rs)%N = true -> cache_ok st pv' (rs_id rs) (rs_pos rs) ns') /\
                 (length (rs_events rs) < N.to_nat (N.min lim query_max_limit) -> choose_valid choose -> at_end st ns').
   Proof.
     intros Hwf Ha Hst Hc Hq. unfold query in Hq. cbn [rq_id rq_pos rq_limit rq_wait] in Hq.
     set (limit := N.min lim query_max_limit) in *. set (cache := (wait || negb (limit =? lim)%N)%bool) in *.
-    destruct (get_or_create st pv id pos cache) as [pv1 c] eqn:Eg.
+    destruct (get_or_create strict st pv id pos cache) as [pv1 c] eqn:Eg.
     assert (cur_ok st c ns) as Hcur.
     { unfold get_or_create in Eg. destruct (0 <? id)%N eqn:Eid.
       - destruct (cache_get id (pv_cache pv)) as [c0|] eqn:Ec.
         + destruct (Hc eq_refl c0 Ec) as [A [B _]]. unfold apply_state in Eg. rewrite B, pos_t_eqb_refl in Eg.
-          injection Eg as <- <-. assumption.
+          rewrite Bool.andb_false_r in Eg. injection Eg as <- <-. assumption.
         + cbn in Eg. injection Eg as <- <-. apply new_cursor_ok; assumption.
       - cbn in Eg. injection Eg as <- <-. apply new_cursor_ok; assumption. }
     destruct (page_loop clear filtered flt choose (N.to_nat limit) st c) as [c1 evs] eqn:Ep.
@@ -1201,7 +1202,7 @@ Section Cur.
 
   Lemma run_spec : forall steps st pv cur prev D ns, wf_store st -> acc D st ns -> start_ok st (snd cur) ns ->
     ((0 <? fst cur)%N = true -> cache_ok st pv (fst cur) (snd cur) ns) -> no_retry steps ->
-    let rs := run clear filtered flt choose st pv cur prev steps in
+    let rs := run clear filtered flt choose strict st pv cur prev steps in
     Forall (fun r => rs_ok r = true) rs /\
     exists nsf, acc (D ++ concat (map rs_events rs)) (final_store st steps) nsf /\
                 start_ok (final_store st steps) (last (map rs_pos rs) (snd cur)) nsf /\
@@ -1219,7 +1220,7 @@ Section Cur.
       { unfold rq, pv1. destruct (s_kind s); cbn [fst snd]; try discriminate; try congruence;
           try (intros _ c Hcc; cbn in Hcc; discriminate).
         intros Hid c Hcc. destruct (Hc Hid c Hcc) as [A [B C]]. split; [apply appends_keep_cur; assumption|split; assumption]. }
-      destruct (query clear filtered flt choose st' pv1 (mkReq (fst rq) (snd rq) (s_limit s) (s_wait s))) as [pv2 r] eqn:Eq.
+      destruct (query clear filtered flt choose strict st' pv1 (mkReq (fst rq) (snd rq) (s_limit s) (s_wait s))) as [pv2 r] eqn:Eq.
       rewrite <- Hrqp in Hs'.
       destruct (query_spec _ _ _ _ _ _ _ _ _ _ Hwf' Ha' Hs' Hc' Eq) as [ns' [Ha2 [Hs2 [Hok [Hc2 Hsh]]]]].
       specialize (IH st' pv2 (rs_id r, rs_pos r) rq (D ++ rs_events r) ns' Hwf' Ha2 Hs2 Hc2 Hnr'). cbn zeta in IH.
@@ -1253,9 +1254,9 @@ Qed.
 Lemma zeros_nth (st : store) p : nth p (map (fun _ : part => 0) st) 0 = 0.
 Proof. revert p. induction st as [|q st IH]; intros [|p]; cbn; auto. Qed.
 
-Theorem paged_read (clear filtered : bool) (flt : oev -> bool) (choose : nat -> list (option oev) -> nat) st steps :
+Theorem paged_read (clear filtered : bool) (flt : oev -> bool) (choose : nat -> list (option oev) -> nat) (strict : bool) st steps :
   wf_store st -> no_retry steps ->
-  let rs := run_from clear filtered flt choose st PHead steps in
+  let rs := run_from clear filtered flt choose strict st PHead steps in
   let stf := final_store st steps in
   Forall (fun r => rs_ok r = true) rs /\
   forall p, events_of p (concat (map rs_events rs)) =
@@ -1267,7 +1268,7 @@ Proof.
   assert (start_ok st PHead (map (fun _ => 0) st)) as Hs0 by (left; split; reflexivity).
   assert ((0 <? fst (0%N, PHead))%N = true -> cache_ok clear filtered flt st prov0 (fst (0%N, PHead)) (snd (0%N, PHead)) (map (fun _ => 0) st)) as Hc0
     by (cbn; discriminate).
-  destruct (run_spec clear filtered flt choose steps st prov0 (0%N, PHead) (0%N, PHead) [] _ Hwf Ha0 Hs0 Hc0 Hnr) as [Hall [nsf [Haf [Hsf _]]]].
+  destruct (run_spec clear filtered flt choose strict steps st prov0 (0%N, PHead) (0%N, PHead) [] _ Hwf Ha0 Hs0 Hc0 Hnr) as [Hall [nsf [Haf [Hsf _]]]].
   cbn [snd app] in *. split; [assumption|]. intros p. rewrite (Haf p). unfold eflt. f_equal. f_equal. f_equal.
   destruct Hsf as [[-> ->]|[pl [-> Hpl]]].
   - rewrite zeros_nth. unfold pos_of. destruct (nth_error (final_store st steps) p); reflexivity.
@@ -1314,10 +1315,10 @@ Proof.
   apply nth_error_None. assumption.
 Qed.
 
-Theorem paged_read_complete (clear filtered : bool) (flt : oev -> bool) (choose : nat -> list (option oev) -> nat) st steps :
+Theorem paged_read_complete (clear filtered : bool) (flt : oev -> bool) (choose : nat -> list (option oev) -> nat) (strict : bool) st steps :
   wf_store st -> no_retry steps -> choose_valid choose ->
-  last_page_short steps (run_from clear filtered flt choose st PHead steps) ->
-  forall p, events_of p (concat (map rs_events (run_from clear filtered flt choose st PHead steps))) =
+  last_page_short steps (run_from clear filtered flt choose strict st PHead steps) ->
+  forall p, events_of p (concat (map rs_events (run_from clear filtered flt choose strict st PHead steps))) =
             filter (eff_flt filtered flt) (map (obs p) (part_events (final_store st steps) p)).
 Proof.
   intros Hwf Hnr Hv Hsh p. unfold run_from in *.
@@ -1326,18 +1327,18 @@ Proof.
   assert (start_ok st PHead (map (fun _ => 0) st)) as Hs0 by (left; split; reflexivity).
   assert ((0 <? fst (0%N, PHead))%N = true -> cache_ok clear filtered flt st prov0 (fst (0%N, PHead)) (snd (0%N, PHead)) (map (fun _ => 0) st)) as Hc0
     by (cbn; discriminate).
-  destruct (run_spec clear filtered flt choose steps st prov0 (0%N, PHead) (0%N, PHead) [] _ Hwf Ha0 Hs0 Hc0 Hnr) as [_ [nsf [Haf [Hsf Hend]]]].
+  destruct (run_spec clear filtered flt choose strict steps st prov0 (0%N, PHead) (0%N, PHead) [] _ Hwf Ha0 Hs0 Hc0 Hnr) as [_ [nsf [Haf [Hsf Hend]]]].
   cbn [snd app] in *. rewrite (Haf p). unfold eflt.
   rewrite (at_end_all _ _ p (Hend Hsh Hv) (start_ok_len _ _ _ Hsf)). reflexivity.
 Qed.
 
-Theorem delivered_are_stored (clear filtered : bool) (flt : oev -> bool) (choose : nat -> list (option oev) -> nat) st steps :
+Theorem delivered_are_stored (clear filtered : bool) (flt : oev -> bool) (choose : nat -> list (option oev) -> nat) (strict : bool) st steps :
   wf_store st -> no_retry steps ->
-  forall ev, In ev (concat (map rs_events (run_from clear filtered flt choose st PHead steps))) ->
+  forall ev, In ev (concat (map rs_events (run_from clear filtered flt choose strict st PHead steps))) ->
   In ev (map (obs (o_src ev)) (part_events (final_store st steps) (o_src ev))).
 Proof.
-  intros Hwf Hnr ev Hin. destruct (paged_read clear filtered flt choose st steps Hwf Hnr) as [_ H]. cbn zeta in H.
-  assert (In ev (events_of (o_src ev) (concat (map rs_events (run_from clear filtered flt choose st PHead steps))))) as Hin2.
+  intros Hwf Hnr ev Hin. destruct (paged_read clear filtered flt choose strict st steps Hwf Hnr) as [_ H]. cbn zeta in H.
+  assert (In ev (events_of (o_src ev) (concat (map rs_events (run_from clear filtered flt choose strict st PHead steps))))) as Hin2.
   { unfold events_of. apply filter_In. split; [assumption|apply Nat.eqb_refl]. }
   rewrite H in Hin2. apply filter_In in Hin2. destruct Hin2 as [Hin2 _].
   apply in_map_iff in Hin2. destruct Hin2 as [e [He Hin2]]. apply in_map_iff. exists e. split; [assumption|].
@@ -1351,11 +1352,11 @@ Proof.
   rewrite IHl. apply append_at_len.
 Qed.
 
-Lemma run_srcs_lt (clear filtered : bool) (flt : oev -> bool) (choose : nat -> list (option oev) -> nat) st steps :
+Lemma run_srcs_lt (clear filtered : bool) (flt : oev -> bool) (choose : nat -> list (option oev) -> nat) (strict : bool) st steps :
   wf_store st -> no_retry steps -> final_store st steps = st ->
-  forall ev, In ev (concat (map rs_events (run_from clear filtered flt choose st PHead steps))) -> o_src ev < length st.
+  forall ev, In ev (concat (map rs_events (run_from clear filtered flt choose strict st PHead steps))) -> o_src ev < length st.
 Proof.
-  intros Hwf Hnr Hf ev Hin. pose proof (delivered_are_stored clear filtered flt choose st steps Hwf Hnr ev Hin) as H.
+  intros Hwf Hnr Hf ev Hin. pose proof (delivered_are_stored clear filtered flt choose strict st steps Hwf Hnr ev Hin) as H.
   rewrite Hf in H. unfold part_events in H. destruct (nth_error st (o_src ev)) eqn:E; [|destruct H].
   apply nth_error_Some. congruence.
 Qed.
